@@ -62,10 +62,27 @@ type State struct {
 	defers map[int][]deferred // by frame id
 	dead   bool
 	edges  map[*ssa.BasicBlock]*Term // edge conditions of the last merge (for Phi)
+	locals []*localObj               // heap objects allocated by this activation that have not escaped yet
+	links  []epochLink               // "allocated" havocs: how this epoch's base maps relate to an earlier epoch's
+}
+
+// localObj: an object allocated by the code under verification. Until its
+// address is handed to a call, a closure, an interface or the heap, no other
+// code can reach it, so it survives a havoc caused by an uncontracted call.
+type localObj struct {
+	ptr *Term
+	t   types.Type
+}
+
+type epochLink struct {
+	from, to int
+	since    *Term
 }
 
 func (s *State) clone() *State {
 	n := &State{pc: s.pc, guard: s.guard, epoch: s.epoch, now: s.now, dead: s.dead}
+	n.links = append([]epochLink(nil), s.links...)
+	n.locals = append([]*localObj(nil), s.locals...)
 	n.cells = make(map[*ssa.Alloc]Val, len(s.cells))
 	for k, v := range s.cells {
 		n.cells[k] = v
@@ -248,7 +265,29 @@ func (u *Unit) heapGet(st *State, name string, elem Sort) *Term {
 	t := u.ctx.Const(fmt.Sprintf("%s@%d", name, st.epoch), HeapSort(elem))
 	st.heap[name] = t
 	u.mapSorts[name] = elem
+	u.linkBase(st, name, t)
 	return t
+}
+
+// linkBase: a base map first touched after an "allocated" havoc agrees with
+// the previous epoch's base map on every object older than the unit.
+func (u *Unit) linkBase(st *State, name string, t *Term) {
+	cur := st.epoch
+	curT := t
+	for i := len(st.links) - 1; i >= 0; i-- {
+		l := st.links[i]
+		if l.to != cur {
+			continue
+		}
+		key := fmt.Sprintf("link!%s!%d!%d", name, l.from, l.to)
+		prev := u.ctx.Const(fmt.Sprintf("%s@%d", name, l.from), curT.Sort)
+		if !u.ctx.declared[key] {
+			u.ctx.declared[key] = true
+			r := &Term{"r!q", SRef}
+			u.ctx.Axiom(Forall([]Binder{{"r!q", SRef}}, Implies(Lt(App(SInt, "birth", r), l.since), Eq(Select(curT, r), Select(prev, r))), Select(curT, r)))
+		}
+		cur, curT = l.from, prev
+	}
 }
 
 func (u *Unit) heapSet(st *State, name string, t *Term) {
@@ -256,10 +295,71 @@ func (u *Unit) heapSet(st *State, name string, t *Term) {
 }
 
 func (u *Unit) havocAll(st *State, why string) {
+	type saved struct {
+		o *localObj
+		v Val
+	}
+	var keep []saved
+	for _, o := range st.locals {
+		func() {
+			defer func() {
+				if r := recover(); r != nil {
+					if _, ok := r.(unsupported); !ok {
+						panic(r)
+					}
+				}
+			}()
+			keep = append(keep, saved{o, u.loadVal(st, o.t, o.ptr)})
+		}()
+	}
 	u.ctx.n++
 	st.epoch = u.ctx.n
 	st.heap = map[string]*Term{}
+	st.links = nil
+	for _, k := range keep {
+		u.storeVal(st, k.o.t, k.o.ptr, k.v)
+	}
 	u.noteHavoc(why)
+}
+
+// escape: the value v leaves the activation (call argument, closure binding,
+// stored into memory, boxed): objects it points to may now be changed by others.
+func (u *Unit) escape(st *State, v Val) {
+	switch x := v.(type) {
+	case *Term:
+		if x.Sort != SPtr && x.Sort != SSlice {
+			return
+		}
+		ref := ""
+		if x.Sort == SPtr {
+			ref = parr(x).S
+		} else {
+			ref = sarr(x).S
+		}
+		out := st.locals[:0:0]
+		for _, o := range st.locals {
+			if parr(o.ptr).S != ref {
+				out = append(out, o)
+			}
+		}
+		st.locals = out
+	case *StructVal:
+		for _, f := range x.Fields {
+			u.escape(st, f)
+		}
+	case *TupleVal:
+		for _, f := range x.Elems {
+			u.escape(st, f)
+		}
+	case *AddrVal:
+		u.escape(st, x.Ptr)
+	case *ClosureVal:
+		for _, b := range x.Bindings {
+			u.escape(st, b)
+		}
+	case *BoundVal:
+		u.escape(st, x.Recv)
+	}
 }
 
 // splitApp splits "(op a b ...)" into its top-level arguments; ok=false if t is not such an application.
@@ -420,9 +520,34 @@ func (u *Unit) storeVal(st *State, t types.Type, p *Term, v Val) {
 	sort, _ := u.sortOf(t)
 	tv, ok := v.(*Term)
 	if !ok {
-		unsupp("store of %T into scalar cell of %s", v, t)
+		if sort == SFn {
+			tv = u.reifyFn(v)
+		} else {
+			unsupp("store of %T into scalar cell of %s", v, t)
+		}
 	}
 	u.storeLoc(st, elemMapName(sort), sort, p, tv)
+}
+
+// reifyFn: a function value stored into memory becomes an opaque non-nil Fn constant.
+func (u *Unit) reifyFn(v Val) *Term {
+	name := "fnval"
+	switch f := v.(type) {
+	case *ClosureVal:
+		name = "fnval!" + funcKey(f.Fn)
+	case *FnVal:
+		name = "fnval!" + funcKey(f.Fn)
+	case *BoundVal:
+		name = "fnval!bound!" + funcKey(f.Fn)
+	default:
+		unsupp("store of %T as a function value", v)
+	}
+	t := u.ctx.Const(name, SFn)
+	if !u.ctx.declared["fnval!nn!"+t.S] {
+		u.ctx.declared["fnval!nn!"+t.S] = true
+		u.ctx.Axiom(Not(Eq(t, NilFn)))
+	}
+	return t
 }
 
 func (u *Unit) storeField(st *State, structT types.Type, s *types.Struct, i int, p *Term, v Val) {
@@ -434,7 +559,11 @@ func (u *Unit) storeField(st *State, structT types.Type, s *types.Struct, i int,
 	sort, _ := u.sortOf(f.Type())
 	tv, ok := v.(*Term)
 	if !ok {
-		unsupp("store of %T into field %s", v, f.Name())
+		if sort == SFn {
+			tv = u.reifyFn(v)
+		} else {
+			unsupp("store of %T into field %s", v, f.Name())
+		}
 	}
 	u.storeLoc(st, fieldMapName(structT, f.Name()), sort, p, tv)
 }
